@@ -11,7 +11,8 @@
   * `build` / `buildOutput` : a bare filter from a configuration / the wiring
                     of syncer.NewRedisOutput (NoRouteCmds and the reserved
                     prefixes from Gen/FilterConsts.lean always inserted)
-  * `parseFilter` : the filter decisions of RedisOutput.parseAofCommand
+  * `rdbKeep`     : the snapshot path (rdbReplay); the parser loop is
+                    Model/FilterParse.lean (the C01 parser model instantiated)
 
   Case folding is ASCII (`lower`, `upper`, `eqFold`): command names and option
   words are ASCII in Redis; Go's Unicode folding of non-ASCII letters (Kelvin
@@ -161,8 +162,6 @@ def wSelect : Bytes := [115,101,108,101,99,116]
 def wPublish : Bytes := [112,117,98,108,105,115,104]
 def wMulti : Bytes := [109,117,108,116,105]
 def wExec : Bytes := [101,120,101,99]
-/-- transaction brackets are never withheld by the database filter (D23 repair) -/
-def isTxnBracket (cmd : Bytes) : Bool := cmd == wMulti || cmd == wExec
 def wSentinelHello : Bytes :=
   [95,95,115,101,110,116,105,110,101,108,95,95,58,104,101,108,108,111]
 
@@ -439,7 +438,7 @@ def buildOutput (c : FilterCfg) : KeyFilter :=
     |>.insertSlotBlackList c.slotBlack
     |>.insertDbBlackList c.dbBlack
 
-/-! ### filter decisions of RedisOutput.parseAofCommand -/
+/-! ### SELECT argument (shared with the parser models) -/
 
 /-- `strconv.Atoi` restricted to what the harness feeds: optional sign,
     non-empty digits. -/
@@ -449,40 +448,22 @@ def atoi? (bs : Bytes) : Option Int :=
   | 43 :: rest => (decToNat? rest).map (fun n => (n : Int))
   | _ => (decToNat? bs).map (fun n => (n : Int))
 
-inductive ParseOut where
-  | dropped                                   -- counted as filtered, nothing sent
-  | select (db : Int)                         -- goes on to the select handling
-  | forward (cmd : Bytes) (args : List Bytes) -- queued for the target
-  | error                                     -- parser returns an error
+/-! ### config.(*SyncConfig).fix on the filter section -/
 
-/-- one iteration of the parser loop after `ParseArgs` (`cmd` is lower case);
-    state is the `bypass` flag. -/
-def parseFilter (f : KeyFilter) (bypass : Bool) (cmd : Bytes) (argv : List Bytes) :
-    Bool × ParseOut :=
-  if cmd != wPing then
-    if eqFold cmd wSelect then
-      match argv with
-      | [a] =>
-        match atoi? a with
-        | none => (bypass, .error)
-        | some n =>
-          let bypass' := f.filterDb n
-          if bypass' then (bypass', .dropped)
-          else
-            match f.filterCmdKey cmd argv with
-            | none => (bypass', .dropped)
-            | some newArgv => if n ≥ 0 then (bypass', .select n) else (bypass', .forward cmd newArgv)
-      | _ => (bypass, .error)
-    else if f.filterCmd cmd then (bypass, .dropped)
-    else if eqFold cmd wPublish && eqFold (argv.headD []) wSentinelHello then (bypass, .dropped)
-    else if bypass && !isTxnBracket cmd then (bypass, .dropped)
-    else
-      match f.filterCmdKey cmd argv with
-      | none => (bypass, .dropped)
-      | some newArgv => (bypass, .forward cmd newArgv)
-  else
-    match f.filterCmdKey cmd argv with
-    | none => (bypass, .dropped)
-    | some newArgv => if bypass then (bypass, .dropped) else (bypass, .forward cmd newArgv)
+/-- what `SyncConfig.fix` leaves of the configured filter (REPAIRED code: the
+    database blacklist is no longer emptied for a cluster target); `none` =
+    configuration rejected: resume-from-breakpoint needs TargetDb −1, a cluster
+    target needs TargetDb −1 or 0. -/
+def configFix (cluster : Bool) (targetDb : Int) (resume : Bool) (c : FilterCfg) : Option FilterCfg :=
+  if resume && targetDb != -1 then none
+  else if cluster && !(targetDb == -1 || targetDb == 0) then none
+  else some c
+
+/-! ### the snapshot path (RedisOutput.rdbReplay, bisyncRdbReplay) -/
+
+/-- a snapshot entry `(db, key)` is replayed exactly when `FilterDb(db)` is
+    false and neither `FilterKey(key)` nor `FilterSlot(key)` holds -/
+def rdbKeep (f : KeyFilter) (db : Int) (key : Bytes) : Bool :=
+  !f.filterDb db && !(f.filterKey key || f.filterSlot key)
 
 end GunYu.Filter
